@@ -278,14 +278,19 @@ class World:
     def prefix(self):
         return ["m"]
 
+    def literal(self):
+        """merge_contents / unmerge_contents get full locations and no offset: mode 'none', and every engine
+        run (the engine rewrites the cset itself and calls the ops without offset)."""
+        return self.sc["mode"] == "none" or self.sc["via"] in ("engine", "replace")
+
     def abs_offset(self):
-        return [] if self.sc["mode"] == "none" else ["m"]
+        return [] if self.literal() else ["m"]
 
     def abs_entries(self, entries=None):
         rows = []
         for e in (self.sc["cset"] if entries is None else entries):
             comps = e["path"].split("/")
-            if self.sc["mode"] == "none":
+            if self.literal():
                 comps = ["m"] + comps
             data = e["content"].encode() if e["type"] == "file" else b""
             rows.append(dict(path=comps, type=e["type"], cid=fsrec.cid_of_bytes(data) if e["type"] == "file" else "-",
